@@ -293,8 +293,11 @@ class Interp(Engine):
         if k is KConst and isinstance(cont.const, EmptyLit):
             return z3.BoolVal(False)
         if isinstance(k, KList):
+            n = z3.simplify(self.list_len(st, cont))
+            if z3.is_int_value(n) and n.as_long() <= 16:
+                # a list of known small length: membership is a finite disjunction
+                return z3.Or([self.eq(st, self.list_get(st, cont, z3.IntVal(q)), x, node) for q in range(n.as_long())] or [z3.BoolVal(False)])
             i = st.fresh("mi", z3.IntSort())
-            n = self.list_len(st, cont)
             e = self.list_get(st, cont, i)
             return z3.Exists([i], z3.And(0 <= i, i < n, self.eq(st, e, x, node)))
         raise Unsupported("in on %s (line %s)" % (k, getattr(node, "lineno", "?")))
